@@ -227,6 +227,17 @@ def run_shard(spec):
             col.count("layout:cwd_is_the_user_config_dir")
         os.environ["JUPYTER_CONFIG_DIR"] = dirs[1]
         os.environ["JUPYTER_CONFIG_PATH"] = dirs[2]
+        spell = ncase % 5
+        if spell in (1, 2):
+            # the directories spelled the way docker-compose / systemd / IDE environment blocks hand them over: with an
+            # unexpanded ~ or $VARIABLE (the config loader expands both)
+            os.environ["HOME"] = root
+            os.environ["VMON_CFG_ANCHOR"] = root
+            rel1, rel2 = os.path.relpath(dirs[1], root), os.path.relpath(dirs[2], root)
+            if not rel1.startswith("..") and not rel2.startswith(".."):
+                os.environ["JUPYTER_CONFIG_DIR"] = ("~/" + rel1) if spell == 1 else ("$VMON_CFG_ANCHOR/" + rel1)
+                os.environ["JUPYTER_CONFIG_PATH"] = ("$VMON_CFG_ANCHOR/" + rel2) if spell == 1 else ("~/" + rel2)
+                col.count("config_dirs_spelled_with_unexpanded_tilde_or_variable")
         os.chdir(dirs[0])
         wit = {"entry": entry, "files": files, "focus": focus, "flags": flags, "argv": argv}
         try:
